@@ -21,8 +21,20 @@ import (
 type c10Scenario struct {
 	Name string
 	Opts env.Opts
-	// Run builds a fresh world (with the given plan installed) and issues the one request.
-	Run func(o env.Opts, plan sim.FaultPlan) (*env.Env, *env.Call)
+	// run builds a fresh world and returns the function that issues the scenario's request.
+	run func(o env.Opts) (*env.Env, func() *env.Call)
+}
+
+// Run issues the request on a fresh provider with the plan installed. With warm, the same request is
+// first served fault-free on the same provider (so that anything the provider remembers from a good
+// request - keys, metadata, service providers - is in place when the fault strikes).
+func (sc *c10Scenario) Run(o env.Opts, plan sim.FaultPlan, warm bool) (*env.Env, *env.Call) {
+	e, send := sc.run(o)
+	if warm {
+		send()
+	}
+	e.W.Plan = plan
+	return e, send()
 }
 
 var faultableOps = map[string]bool{
@@ -38,16 +50,15 @@ func faultKinds(op string) []string {
 }
 
 func c10Scenarios() []c10Scenario {
-	mk := func(o env.Opts, plan sim.FaultPlan) *env.Env {
+	mk := func(o env.Opts) *env.Env {
 		e := env.Static(o)
-		e.W.Plan = plan
 		mustRegister(e.W, stdSP(0), "appA")
 		return e
 	}
 	fixedRng := func() *rand.Rand { return rand.New(rand.NewSource(7)) }
-	sso := func(binding string, signed bool) func(o env.Opts, plan sim.FaultPlan) (*env.Env, *env.Call) {
-		return func(o env.Opts, plan sim.FaultPlan) (*env.Env, *env.Call) {
-			e := mk(o, plan)
+	sso := func(binding string, signed bool) func(o env.Opts) (*env.Env, func() *env.Call) {
+		return func(o env.Opts) (*env.Env, func() *env.Call) {
+			e := mk(o)
 			rng := fixedRng()
 			a := validAuthn(rng, stdSP(0))
 			a.Style = spsim.Style{PfxP: "samlp", PfxA: "saml"}
@@ -63,61 +74,60 @@ func c10Scenarios() []c10Scenario {
 				}
 				s.XML = sx
 			}
-			call, _ := s.do(e)
-			return e, call
+			return e, func() *env.Call { c, _ := s.do(e); return c }
 		}
 	}
-	callback := func(binding string, acs string) func(o env.Opts, plan sim.FaultPlan) (*env.Env, *env.Call) {
-		return func(o env.Opts, plan sim.FaultPlan) (*env.Env, *env.Call) {
-			e := mk(o, plan)
+	callback := func(binding string, acs string) func(o env.Opts) (*env.Env, func() *env.Call) {
+		return func(o env.Opts) (*env.Env, func() *env.Call) {
+			e := mk(o)
 			rng := fixedRng()
 			sc := randScenario(rng, "MKcbx", false)
 			sc.Host = ""
 			sc.S.Binding, sc.S.ACS = binding, acs
 			sc.install(e.W)
-			return e, e.Do(env.Req{Path: env.PathLogin, Query: "id=" + url.QueryEscape(sc.S.ID)})
+			return e, func() *env.Call { return e.Do(env.Req{Path: env.PathLogin, Query: "id=" + url.QueryEscape(sc.S.ID)}) }
 		}
 	}
-	logout := func(binding string) func(o env.Opts, plan sim.FaultPlan) (*env.Env, *env.Call) {
-		return func(o env.Opts, plan sim.FaultPlan) (*env.Env, *env.Call) {
-			e := mk(o, plan)
+	logout := func(binding string) func(o env.Opts) (*env.Env, func() *env.Call) {
+		return func(o env.Opts) (*env.Env, func() *env.Call) {
+			e := mk(o)
 			rng := fixedRng()
 			l := conformantLogout(rng, stdSP(0))
 			s := ssoSend{Path: env.PathSLO, Binding: binding, XML: l.XML(rng), HasRelay: true, Relay: "MKrelay"}
-			call, _ := s.do(e)
-			return e, call
+			return e, func() *env.Call { c, _ := s.do(e); return c }
 		}
 	}
-	query := func(o env.Opts, plan sim.FaultPlan) (*env.Env, *env.Call) {
-		e := mk(o, plan)
+	query := func(o env.Opts) (*env.Env, func() *env.Call) {
+		e := mk(o)
 		rng := fixedRng()
 		u := randUser(rng, "UMKqx", false)
 		e.W.AddUser(u)
 		q := conformantQuery(rng, stdSP(0), u.Username)
-		return e, e.Do(env.Req{Method: "POST", Path: env.PathAttr, Body: q.XML(rng), CT: "text/xml"})
+		body := q.XML(rng)
+		return e, func() *env.Call { return e.Do(env.Req{Method: "POST", Path: env.PathAttr, Body: body, CT: "text/xml"}) }
 	}
-	get := func(path string) func(o env.Opts, plan sim.FaultPlan) (*env.Env, *env.Call) {
-		return func(o env.Opts, plan sim.FaultPlan) (*env.Env, *env.Call) {
-			e := mk(o, plan)
-			return e, e.Do(env.Req{Path: path})
+	get := func(path string) func(o env.Opts) (*env.Env, func() *env.Call) {
+		return func(o env.Opts) (*env.Env, func() *env.Call) {
+			e := mk(o)
+			return e, func() *env.Call { return e.Do(env.Req{Path: path}) }
 		}
 	}
 	return []c10Scenario{
-		{Name: "sso_redirect_unsigned", Run: sso("redirect", false)},
-		{Name: "sso_redirect_signed", Run: sso("redirect", true)},
-		{Name: "sso_post_unsigned", Run: sso("post", false)},
-		{Name: "sso_post_signed", Run: sso("post", true)},
-		{Name: "callback_post", Run: callback(spsim.BindPost, "https://mkcbx.sp.example/acs")},
-		{Name: "callback_redirect", Run: callback(spsim.BindRedirect, "https://mkcbx.sp.example/acs")},
-		{Name: "callback_body", Run: callback(spsim.BindPost, "")},
-		{Name: "logout_post", Run: logout("post")},
-		{Name: "logout_redirect", Run: logout("redirect")},
-		{Name: "attribute_query", Run: query},
-		{Name: "metadata_unsigned", Run: get(env.PathMetadata)},
-		{Name: "metadata_signed", Opts: env.Opts{MetaSigAlg: spsim.AlgRSASHA256}, Run: get(env.PathMetadata)},
-		{Name: "certificate", Run: get(env.PathCert)},
-		{Name: "readiness", Run: get("/ready")},
-		{Name: "health", Run: get("/healthz")},
+		{Name: "sso_redirect_unsigned", run: sso("redirect", false)},
+		{Name: "sso_redirect_signed", run: sso("redirect", true)},
+		{Name: "sso_post_unsigned", run: sso("post", false)},
+		{Name: "sso_post_signed", run: sso("post", true)},
+		{Name: "callback_post", run: callback(spsim.BindPost, "https://mkcbx.sp.example/acs")},
+		{Name: "callback_redirect", run: callback(spsim.BindRedirect, "https://mkcbx.sp.example/acs")},
+		{Name: "callback_body", run: callback(spsim.BindPost, "")},
+		{Name: "logout_post", run: logout("post")},
+		{Name: "logout_redirect", run: logout("redirect")},
+		{Name: "attribute_query", run: query},
+		{Name: "metadata_unsigned", run: get(env.PathMetadata)},
+		{Name: "metadata_signed", Opts: env.Opts{MetaSigAlg: spsim.AlgRSASHA256}, run: get(env.PathMetadata)},
+		{Name: "certificate", run: get(env.PathCert)},
+		{Name: "readiness", run: get("/ready")},
+		{Name: "health", run: get("/healthz")},
 	}
 }
 
@@ -200,14 +210,17 @@ func c10Judge(r *core.Run, wl string, idx int, class string, sc *c10Scenario, ca
 	r.Seen("error_reply_shapes", fmt.Sprintf("%s/%d/%s", sc.Name, d.Status, d.Kind))
 }
 
-func c10Single(scs []c10Scenario, pairs bool) func(r *core.Run, idx int, rng *rand.Rand) {
+func c10Single(scs []c10Scenario, pairs, warm bool) func(r *core.Run, idx int, rng *rand.Rand) {
 	return func(r *core.Run, idx int, _ *rand.Rand) {
 		wl := "single_faults"
 		if pairs {
 			wl = "fault_pairs"
 		}
+		if warm {
+			wl += "_after_good_request"
+		}
 		sc := &scs[idx]
-		_, base := sc.Run(sc.Opts, nil)
+		_, base := sc.Run(sc.Opts, nil, warm)
 		seq := opSequence(base)
 		r.Count("scenarios_recorded", 1)
 		r.Count("storage_calls_recorded", int64(len(seq)))
@@ -215,7 +228,7 @@ func c10Single(scs []c10Scenario, pairs bool) func(r *core.Run, idx int, rng *ra
 			r.Violate(core.Violation{Clause: "panic_without_fault", Class: sc.Name, Reason: base.Panic, Workload: wl, Index: idx, Observed: base.Describe()})
 			return
 		}
-		if idx < 15 && !pairs {
+		if idx < 15 && !pairs && !warm {
 			var s []string
 			for _, p := range seq {
 				s = append(s, fmt.Sprintf("%s#%d", p.Op, p.Occ))
@@ -226,14 +239,17 @@ func c10Single(scs []c10Scenario, pairs bool) func(r *core.Run, idx int, rng *ra
 			for _, k := range faultKinds(p.Op) {
 				f1 := faultPos{p.Op, p.Occ, k}
 				fired := map[string]bool{}
-				_, call := sc.Run(sc.Opts, planFor([]faultPos{f1}, fired))
+				_, call := sc.Run(sc.Opts, planFor([]faultPos{f1}, fired), warm)
 				if !fired[f1.String()] {
 					r.Count("fault_not_reached", 1)
 					continue
 				}
 				if !pairs {
-					r.Eval(sc.Name + "|" + f1.String())
+					r.Eval(wl + "|" + sc.Name + "|" + f1.String())
 					r.Count("single_faults_injected", 1)
+					if warm {
+						r.Count("single_faults_injected_after_good_request", 1)
+					}
 					c10Judge(r, wl, idx, sc.Name+"|"+p.Op+"|"+k, sc, call, []faultPos{f1})
 					continue
 				}
@@ -253,7 +269,7 @@ func c10Single(scs []c10Scenario, pairs bool) func(r *core.Run, idx int, rng *ra
 					for _, k2 := range faultKinds(p2.Op) {
 						f2 := faultPos{p2.Op, p2.Occ, k2}
 						fired2 := map[string]bool{}
-						_, call2 := sc.Run(sc.Opts, planFor([]faultPos{f1, f2}, fired2))
+						_, call2 := sc.Run(sc.Opts, planFor([]faultPos{f1, f2}, fired2), warm)
 						if !fired2[f1.String()] || !fired2[f2.String()] {
 							r.Count("fault_not_reached", 1)
 							continue
@@ -289,7 +305,7 @@ func c10Alg(scs []c10Scenario) func(r *core.Run, idx int, rng *rand.Rand) {
 			o.SigAlg, o.NoSigAlg = alg, true
 		}
 		sc.Opts = o
-		_, call := sc.Run(o, nil)
+		_, call := sc.Run(o, nil, false)
 		r.Eval(sc.Name + "|alg=" + alg)
 		r.Count("algorithm_faults_injected", 1)
 		class := sc.Name + "|algorithm|" + alg
@@ -328,17 +344,20 @@ func init() {
 			}
 			sort.Strings(names)
 			r.Extra("scenarios", names)
-			r.Rule = "for each endpoint scenario (SSO redirect/POST signed/unsigned, callback POST/Redirect/body, logout POST/redirect, attribute query, metadata signed/unsigned, certificate, readiness, health) a fault-free recording run yields the sequence of storage calls; then every (operation, occurrence) x fault kind {error; for the two key getters also nil record, key without certificate, certificate without key, empty certificate} is injected singly (quick and thorough) and in pairs (thorough: the second fault at every call that still happens after the first, sequence re-recorded); the signing scenarios are re-run with unusable configured signature algorithms. After the first fault the reply must be HTTP 5xx or a non-Success SAML response: no panic, no Success, no user canary, no signed metadata, no persistence, no login redirect. Distinct = (scenario, fault positions and kinds); all non-trivial."
+			r.Rule = "for each endpoint scenario (SSO redirect/POST signed/unsigned, callback POST/Redirect/body, logout POST/redirect, attribute query, metadata signed/unsigned, certificate, readiness, health) a fault-free recording run yields the sequence of storage calls; then every (operation, occurrence) x fault kind {error; for the two key getters also nil record, key without certificate, certificate without key, empty certificate} is injected singly (quick and thorough; once on a fresh provider and once right after the same request was served fault-free by the same provider) and in pairs (thorough: the second fault at every call that still happens after the first, sequence re-recorded); the signing scenarios are re-run with unusable configured signature algorithms. After the first fault the reply must be HTTP 5xx or a non-Success SAML response: no panic, no Success, no user canary, no signed metadata, no persistence, no login redirect. Distinct = (scenario, fault positions and kinds); all non-trivial."
 			r.SetExhaustive(true)
 			r.Assume("exhaustive over the listed scenarios, their recorded call sequences and the listed fault kinds; other requests may reach other call sequences")
-			r.Require("single_faults_injected", 60)
+			r.Require("single_faults_injected", 120)
+			r.Require("single_faults_injected_after_good_request", 60)
 			r.Require("algorithm_faults_injected", 15)
 			wls := []core.Workload{
-				{Name: "single_faults", N: len(scs), Fn: c10Single(scs, false)},
+				{Name: "single_faults", N: len(scs), Fn: c10Single(scs, false, false)},
+				{Name: "single_faults_after_good_request", N: len(scs), Fn: c10Single(scs, false, true)},
 				{Name: "unusable_algorithm", N: len(scs) * 5, Fn: c10Alg(scs)},
 			}
 			if c.Thorough {
-				wls = append(wls, core.Workload{Name: "fault_pairs", N: len(scs), Fn: c10Single(scs, true)})
+				wls = append(wls, core.Workload{Name: "fault_pairs", N: len(scs), Fn: c10Single(scs, true, false)})
+				wls = append(wls, core.Workload{Name: "fault_pairs_after_good_request", N: len(scs), Fn: c10Single(scs, true, true)})
 				r.Assume("a second fault can only be injected where the handler still calls storage after the first failure; on a tree where every failure ends the request at once the pair enumeration is empty (fault_pairs_injected = 0) and calls_after_first_fault = 0 is itself the observation")
 			}
 			return wls
